@@ -1,14 +1,9 @@
 (* MergeP — proofs about Msg/MergeModel.v (C07). *)
 From Coq Require Import List NArith ZArith Bool Lia.
-From PB Require Import Base.PBytes Wire.WireModel Msg.MsgSchema Msg.MsgValue Msg.MsgDec Msg.MergeModel.
+From PB Require Import Base.PBytes Wire.WireModel Msg.MsgSchema Msg.MsgValue Msg.MsgEnc Msg.MsgDec Msg.MergeModel.
 Import ListNotations.
 Open Scope N_scope.
 
 (* Merge(m, empty) = m *)
-Lemma msg_merge_empty_r S tid fs u : msg_merge S tid (VMsg fs u) msg_empty = VMsg fs u.
-Proof. cbn [msg_merge msg_empty fold_left]. rewrite app_nil_r. reflexivity. Qed.
-
-(* unknown fields append *)
-Lemma msg_merge_unknown S tid afs au bfs bu :
-  exists fs, msg_merge S tid (VMsg afs au) (VMsg bfs bu) = VMsg fs (au ++ bu).
-Proof. cbn [msg_merge]. eexists. reflexivity. Qed.
+Lemma msg_merge_empty_r S d tid fs u : msg_merge S (Datatypes.S d) tid (VMsg fs u) msg_empty = Some (VMsg fs u).
+Proof. cbn. rewrite app_nil_r. reflexivity. Qed.
